@@ -101,6 +101,10 @@ def make_replayer(specs):
     return replayer
 
 
+def c4rt_rel2():
+    return ["0d", "-1d", "7d", "-1m", "1m", "-12m", "1y", "-4y", "0m", "0y"]
+
+
 def replay_kernel(name, args):
     from freezegun import freeze_time
     from zorg.service.compiler import _query_compiler as qc
@@ -121,6 +125,15 @@ def replay_kernel(name, args):
             got = zdt.from_date_spec(spec)
         want = c4.date_of(spec)
         return got != want, {"summary": "date spec %r on %s denotes %s, compiled to %s" % (spec, c4.TODAY, want, got)}
+    if name == "k_two_days":
+        spec = c4rt_rel2()[args[0]]
+        out = []
+        for k in (args[1], args[2]):
+            with freeze_time(c4.DAYS[k].strftime("%Y-%m-%d") + " 10:00:00"):
+                out.append((c4.DAYS[k], zdt.from_date_spec(spec), c4.date_of(spec, c4.DAYS[k])))
+        bad = [o for o in out if o[1] != o[2]]
+        return bool(bad), {"summary": "date spec %r resolved twice in one process: %s" % (
+            spec, "; ".join("on %s -> %s (denotes %s)" % o for o in out))}
     return False, {"summary": "no replayer for " + name}
 
 
@@ -162,6 +175,8 @@ def main():
                                "bound": skel.assemble(specs[i].parts())[0]}) for fname, i in entries]
         for k in ("k_value_type", "k_split_op", "k_relative"):
             conds.append(xh.Cond(RT, k, timeout=T * 2, env=env, meta={"family": "kernel"}))
+        conds.append(xh.Cond(RT, "k_two_days", timeout=T * 2, env=env, meta={"family": "kernel"},
+                             cc={"ranges": [[0, len(c4rt_rel2())], [0, len(c4.DAYS)], [0, len(c4.DAYS)]], "max": 400}))
         conds.append(xh.Cond(path, entries[0][0], timeout=30, twin=True, env=env, meta={"variant": specs[entries[0][1]].name, "family": "twin"}))
         conds.append(xh.Cond(RT, "k_relative", timeout=30, twin=True, env=env, meta={"family": "twin"}))
         results = xh.run_all(conds)
